@@ -98,7 +98,12 @@ func (e *Exec) imBinop(op token.Token, a, b Term, xt types.Type) Value {
 	}
 	if a.Const && b.Const {
 		// fall back to BV folding
-		r := BVBin(op.String(), BV(w, a.U), BV(w, b.U), signed)
+		var r Term
+		if op == token.SHL || op == token.SHR {
+			r = BVShift(op.String(), BV(w, a.U), BV(64, b.U), signed)
+		} else {
+			r = BVBin(op.String(), BV(w, a.U), BV(w, b.U), signed)
+		}
 		if r.Sort == SBool {
 			return VBool{r}
 		}
